@@ -255,6 +255,17 @@ def rid(s):
     return n if n is not None else 999999
 
 
+def _trace_has_restored():
+    try:
+        import vlib
+        return "KRestored" in open(os.path.join(vlib.COQ, "model", "Trace.v")).read()
+    except OSError:
+        return False
+
+
+RESTORE_EVENTS = _trace_has_restored()
+
+
 def kind_term(e):
     k, a = e["kind"], e["args"]
     if k == "issue":
@@ -289,6 +300,10 @@ def kind_term(e):
         return "KInstall %d %s" % (idn(a[0]), bool_lit(a[1]))
     if k == "removed":
         return "KRemoved %d" % idn(a[0])
+    if k == "restored":
+        # RestoreLastSavedState put a service object read from the state file into the table (hook 4a0387c); the constructor
+        # exists once model/Trace.v knows restored services (RESTORE_EVENTS), until then the event is one the views ignore
+        return ("KRestored %d %s %s" % (idn(a[0]), opt_id(a[1]), opt_id(a[2]))) if RESTORE_EVENTS else "KOther"
     if k == "rollout-set":
         return "KRolloutSet %d" % idn(a[0])
     if k == "rollout-stop":
